@@ -111,17 +111,21 @@ def run_impl(case):
                 f.write("".join(l + "\n" for l in case["prior"]))
         calls = []
         shared = JetAnalysis() if case.get("reuse") else None       # one analysis object used for every call
+        outer = [] if case.get("samelist") else None                # ... and one outer list object, refilled in place per call
         for call in case["calls"]:
             ja = shared or JetAnalysis()
             err = None
+            if outer is not None:
+                outer[:] = mk_events(call["events"])
+            evs = (lambda c: outer if outer is not None else mk_events(c["events"]))
             try:
                 with contextlib.redirect_stdout(io.StringIO()):
                     if call.get("defaults"):
                         # keyword parameters left to their documented defaults (charged only, anti-kt): the case
                         # carries charged=True / alg="antikt", which is what the oracle and the model are given
-                        ja.perform_jet_finding(mk_events(call["events"]), call["R"], tuple(call["eta"]), tuple(call["pt"]), path)
+                        ja.perform_jet_finding(evs(call), call["R"], tuple(call["eta"]), tuple(call["pt"]), path)
                     else:
-                        ja.perform_jet_finding(mk_events(call["events"]), call["R"], tuple(call["eta"]), tuple(call["pt"]),
+                        ja.perform_jet_finding(evs(call), call["R"], tuple(call["eta"]), tuple(call["pt"]),
                                                path, assoc_only_charged=call["charged"], jet_algorithm=fj_alg(call["alg"]))
             except Exception as e:
                 err = type(e).__name__
@@ -488,6 +492,8 @@ def gen_case(rng, small=False):
     case = {"prior": prior, "calls": calls}
     if reuse:
         case["reuse"] = True
+        if rng.random() < 0.5:
+            case["samelist"] = True          # the caller keeps one list object and refills it in place between the calls
     return case
 
 
